@@ -42,3 +42,48 @@ func VpC15RxCaptures() {
 	}
 	vp.Reached("end")
 }
+
+// VpC15PmCaptures: @pm and @pmFromDataset with capture over inputs with 8..11 phrase hits: the
+// operator matches and TX.0-TX.9 hold the first ten hits in order of appearance (a naive
+// leftmost scan over the phrase list is the reference), no more and no fewer.
+func VpC15PmCaptures() {
+	hits := 8 + vp.Choice("hits", 4)
+	sep := []string{"-", "--", ""}[vp.Choice("sep", 3)]
+	in := ""
+	var want []string
+	for i := 0; i < hits; i++ {
+		w := "ab"
+		if i < 2 || i == hits-1 {
+			w = []string{"ab", "Cd"}[vp.Choice("word", 2)] // the first two and the last hit are chosen
+		}
+		in += sep + w
+		want = append(want, w)
+	}
+	ds := vp.Choice("dataset", 2) == 1
+	op := vp.Setup("pmcap:"+map[bool]string{true: "D", false: "P"}[ds], func() any {
+		if ds {
+			o, err := newPMFromDataset(plugintypes.OperatorOptions{Arguments: "d", Datasets: map[string][]string{"d": {"ab", "cd"}}})
+			if err != nil {
+				panic(err)
+			}
+			return o
+		}
+		o, err := newPM(plugintypes.OperatorOptions{Arguments: "ab cd"})
+		if err != nil {
+			panic(err)
+		}
+		return o
+	}).(plugintypes.Operator)
+	tx := vpNewTx()
+	tx.capturing = true
+	got := op.Evaluate(tx, in)
+	vp.Assert(got, "@pm did not match an input that contains its phrases")
+	for i := 0; i < 10; i++ {
+		w := ""
+		if i < len(want) {
+			w = want[i]
+		}
+		vp.Assert(tx.caps[i] == w, "@pm: TX."+string(rune('0'+i))+" does not hold hit number "+string(rune('0'+i)))
+	}
+	vp.Reached("end")
+}
